@@ -19,6 +19,10 @@ package c09
 //   - Finalise keeps the dirty set, Commit empties it - and leaves the objects
 //     disarmed; Copy carries only dirty objects over, armed but marked dirty.
 //
+// With finding 3 repaired (fa0bdd5) Commit re-arms every live object and clears
+// its touch mark, so a touch / revert after a Commit on the same StateDB is a
+// "first touch" again (finding 2's shape recurs in every epoch).
+//
 // fixUndo / fixCommit switch the simulation to the repaired mechanism of
 // PROPOSED_FIX_1 / PROPOSED_FIX_2 (used only while the other finding is still
 // listed as known).
@@ -230,6 +234,9 @@ func (s *Shadow) Commit() {
 	if s.fixCommit {
 		for _, o := range s.objs {
 			o.armed = true
+			// the repaired Commit (fa0bdd5) also forgets the touch of the finished
+			// transaction: the next zero-value touch is journaled as a first touch
+			o.touched = false
 		}
 	}
 }
